@@ -222,20 +222,21 @@ def check(ctx):
     enc, dec = c.methods['encode_additions'], c.methods['decode_additions']
     bad = None
     py_unused = {}
+    decided = 0
     for n in range(1, 65):
-        try:
-            e = replay.Slice(enc, {'len(self.additions)': n}, replay.stream_param(enc, 'enc'), 'enc').run()
-            d = replay.Slice(dec, {}, replay.stream_param(dec, 'dec'), 'dec', tokens=e.tokens).run()
-            widths = [w for k, w, tok, _ in d.reads if k == 'FIELD' and w is not replay.UNKNOWN]
-            if n not in widths:
-                bad = (n, 'decoder reads a presence bitmap of %s bits, the encoder wrote %d' % (widths, n))
-                break
-            # tokens: LENDET(len), FIELD(unused, 8), FIELD(bits, n)
-            py_unused[n] = (e.tokens[0][1], e.tokens[1][1])
-        except replay.Mismatch as ex:
-            bad = (n, str(ex))
+        verdict, detail, hdr = replay.bitmap_replay(enc, dec, n)
+        if verdict == 'bad':
+            bad = (n, detail)
             break
-    ctx.instance('C06.R6', 'extension bitmap: decoder width == encoder width for 1..64 additions', 'ok' if bad is None else 'VIOLATION', node=enc, file=OER)
+        if verdict == 'ok':
+            decided += 1
+            if hdr is not None:
+                py_unused[n] = hdr
+        else:
+            if n == 1:
+                ctx.note('C06.R6 undecided for %d additions: %s' % (n, detail))
+    ctx.instance('C06.R6', 'extension bitmap: decoder width == encoder width, %d of 64 addition counts decided' % decided,
+                 'ok' if bad is None and decided else ('undecided' if bad is None else 'VIOLATION'), nontrivial=decided > 0, node=enc, file=OER)
     if bad is not None:
         ctx.violation('C06.R6', OER, enc, 'asn1tools/codecs/oer.py::MembersType.encode_additions <-> decode_additions', 'with %d additions: %s' % bad, stmt='extension bitmap width')
     else:
@@ -256,7 +257,7 @@ def check(ctx):
         for n in range(1, 65):
             r, _ = evalexpr.run_function(ml, {flow.param_names(ml)[0]: None, 'len(additions)': n, 'len(%s)' % flow.param_names(ml)[0]: n})
             cu = evalexpr.ev(asg[0].value, {'addition_mask_length': r, 'len(type_.additions)': n})
-            if (r + 1, cu) != py_unused[n]:
+            if n in py_unused and (r + 1, cu) != py_unused[n]:
                 diff = (n, r + 1, cu, py_unused[n])
                 break
         ctx.instance('C06.R6', 'Python codec and C generator agree on (bitmap length, unused bits) for 1..64 additions', 'ok' if diff is None else 'VIOLATION', node=cf, file=COER)
